@@ -220,4 +220,20 @@ theorem log_no_ub (v w : List ℝ) :
       | cons x xs => rw [sumExpW_eq _ _ (by simp) h]; exact noUb_ok _
     · rw [(log_mismatch_raises v w h).2]; exact noUb_err _ (by decide)
 
+/-! ## log-zeros inside a vector (extended reading) -/
+
+/-- over finite values and log-zeros (`-∞`), at least one of them finite, `logSumExp` is the finite
+`ln Σ exp` over the finite entries: a log-zero contributes `exp(-∞) = 0` and never produces a NaN -/
+theorem lse_log_zeros (v : List (Ext ℝ)) (hv : LogVals v) (hf : finPart v ≠ []) :
+    logSumExp v = .ok (Ext.fin (Real.log ((finPart v).map Real.exp).sum)) := logSumExp_logzeros v hv hf
+
+/-- `logSumExp` of log-zeros only is log-zero -/
+theorem lse_all_log_zero (n : Nat) :
+    logSumExp (List.replicate (n + 1) (Ext.ninf : Ext ℝ)) = .ok Ext.ninf := logSumExp_all_logzero n
+
+example : logSumExp [Ext.ninf, Ext.fin 3, Ext.ninf] = .ok (Ext.fin (Real.log (Real.exp 3))) := by
+  have := lse_log_zeros [Ext.ninf, Ext.fin 3, Ext.ninf]
+    (by intro e he; simp at he; rcases he with rfl | rfl | rfl <;> simp) (by simp [finPart])
+  simpa [finPart] using this
+
 end Bpp.C07
